@@ -1,5 +1,6 @@
 import RNacos.Driver.Codec
 import RNacos.Driver.Distro
+import RNacos.Driver.Sequence
 open RNacos.Driver
 
 /-- Generic loop: `# …` lines are echoed and reset the state. -/
@@ -24,4 +25,6 @@ def main (args : List String) : IO UInt32 := do
   | ["codec", "--spec"] => loop stdin stdout () (fun _ ws => ((), Codec.spec ws)) (); return 0
   | ["distro"] => loop stdin stdout () Distro.step (); return 0
   | ["distro", "--spec"] => loop stdin stdout ({} : Distro.SpecSt) Distro.specStep {}; return 0
+  | ["sequence"] => loop stdin stdout ({} : Sequence.St) Sequence.step {}; return 0
+  | ["sequence", "--spec"] => loop stdin stdout ({} : Sequence.SpecSt) Sequence.specStep {}; return 0
   | _ => IO.eprintln "usage: driver <model> [--spec]"; return 2
